@@ -36,8 +36,9 @@ PROPS = {
             "penalty_le_90pct", "split_accounted", "split_all_to_collector_when_no_active_farm",
             "split_all_to_collector_when_share_rounds_to_zero", "owner_share_is_half",
             "MantraDex.C09Sys.emergency_withdraw_tx_effect", "MantraDex.C09Sys.uniqueOwners_nodup",
+            "MantraDex.C02Live.emergency_withdraw_live_partial",
         ],
-        "extra_modules": ["MantraDex.Properties.C09Sys"],
+        "extra_modules": ["MantraDex.Properties.C09Sys", "MantraDex.Properties.C02Live"],
         "streams": {"farmmath": (6000, 300000), "fm_hist": (120, 3000)},
         "what": "THROUGH THE RUNTIME (C09Sys.emergency_withdraw_tx_effect): an accepted emergency withdrawal is signed by the position's owner, deletes the "
                 "position, leaves farms and the pool manager untouched, and moves EXACTLY: amount - penalty to the owner, the same share to every distinct owner of "
@@ -226,8 +227,9 @@ PROPS = {
                      "MantraDex.C02Sys.lp_inv_step", "MantraDex.C02Sys.lp_inv_init_partial", "MantraDex.C02Sys.lp_inv_reachable",
                      "MantraDex.C02Sys.lp_supply_ge_min_reachable", "MantraDex.C02Sys.lp_supply_moves_only_by_deposit_or_withdrawal",
                      "MantraDex.C02Sys.lp_funded_step", "MantraDex.C03Sys.cp_value_per_lp_step", "MantraDex.C03Sys.cp_value_per_lp_reachable",
-                     "MantraDex.C16Tx.withdraw_liquidity_tx_effect_partial", "MantraDex.C16Tx.provide_liquidity_tx_effect_partial"],
-        "extra_modules": ["MantraDex.Properties.C02Sys", "MantraDex.Properties.C03Sys", "MantraDex.Properties.C16Tx"],
+                     "MantraDex.C16Tx.withdraw_liquidity_tx_effect_partial", "MantraDex.C16Tx.provide_liquidity_tx_effect_partial",
+                     "MantraDex.C02Live.withdraw_liquidity_live_partial"],
+        "extra_modules": ["MantraDex.Properties.C02Sys", "MantraDex.Properties.C03Sys", "MantraDex.Properties.C16Tx", "MantraDex.Properties.C02Live"],
         "streams": {"mintmath": (3000, 150000), "pm_hist": (160, 4000)},
         "what": "constant product: later mint = min over the two assets of floor(deposit*supply/reserve) <= the proportional contribution; x*y/supply^2 "
                 "never decreases through a deposit or a withdrawal; first mint + locked 1000 = floor(sqrt(d0*d1)); a withdrawal pays floor(reserve*burned/"
@@ -241,7 +243,8 @@ PROPS = {
                 "cp_value_per_lp_reachable). WHOLE TRANSACTIONS (C16Tx): an accepted WithdrawLiquidity burns exactly the attached LP (supply falls by it), pays the sender "
                 "floor(reserve x burned / supply) of every asset and debits the reserves by exactly that, nothing else moves (withdraw_liquidity_tx_effect_partial); an accepted multi-asset unlocked "
                 "ProvideLiquidity credits exactly the attached coins to the reserves and mints the shares to the receiver plus, only on the first deposit, the locked minimum to the pool manager "
-                "(provide_liquidity_tx_effect_partial)",
+                "(provide_liquidity_tx_effect_partial). LIVENESS (C02Live.withdraw_liquidity_live_partial): in every state satisfying the proved custody and LP invariants, while withdrawals are "
+                "enabled, a holder's WithdrawLiquidity of any LP amount worth at least one unit of some asset IS accepted (for pools of non-factory assets)",
         "assumptions": ["stableswap: the link from the code's D to the exact invariant (two units) is C19's accuracy clause: validated by the exact-D "
                         "monitor monSsLp (value per LP never decreases; first mint = D within 2 units inside the supported range), not proved"],
     },
@@ -372,14 +375,17 @@ PROPS = {
         "theorems": ["create_position_conserves", "expand_position_conserves", "close_position_conserves", "withdraw_position_conserves",
                      "claim_conserves", "create_farm_conserves", "expand_farm_conserves", "close_farm_conserves", "config_conserves",
                      "MantraDex.C05Sys.fm_inv_step", "MantraDex.C05Sys.fm_inv_reachable", "MantraDex.C05Sys.fm_custody_reachable",
-                     "MantraDex.C05Sys.fm_inv_init", "MantraDex.C08Tx.claim_tx_effect", "MantraDex.NonVacuity.w0_fmInv", "MantraDex.NonVacuity.instance_custody"],
-        "extra_modules": ["MantraDex.Properties.C05Sys", "MantraDex.Properties.C08Tx", "MantraDex.Properties.NonVacuity"],
+                     "MantraDex.C05Sys.fm_inv_init", "MantraDex.C08Tx.claim_tx_effect", "MantraDex.NonVacuity.w0_fmInv", "MantraDex.NonVacuity.instance_custody",
+                     "MantraDex.C02Live.close_farm_live", "MantraDex.C08Sys.withdraw_after_unlock"],
+        "extra_modules": ["MantraDex.Properties.C05Sys", "MantraDex.Properties.C08Tx", "MantraDex.Properties.NonVacuity", "MantraDex.Properties.C02Live", "MantraDex.Properties.C08Sys"],
         "streams": {"fm_hist": (160, 4000), "faults": (45, 1500)},
         "what": "handler-level conservation law of the farm manager for every token: liability' + outflow(messages) <= liability + inflow(funds), "
                 "where liability = sum of recorded position amounts + sum over farms of (funded - claimed); proved for every message kind "
                 "(positions create/expand/close/withdraw incl. emergency split, claim, farm create/expand/close, config). With the bank semantics "
                 "this is 'balance - liability never decreases', i.e. the farm manager always holds every locked LP and every unclaimed reward"
-                " LIFTED THROUGH THE RUNTIME (C05Sys): the invariant 'FM bank balance >= liability for every denom' + its well-formedness is preserved by every whole transaction of an external sender executed by the CosmWasm runtime model (nested calls, reply modes, rollback, any injected fault) and hence holds in every reachable state (fm_inv_step, fm_inv_reachable, fm_custody_reachable, fm_inv_init)",
+                " LIFTED THROUGH THE RUNTIME (C05Sys): the invariant 'FM bank balance >= liability for every denom' + its well-formedness is preserved by every whole transaction of an external sender executed by the CosmWasm runtime model (nested calls, reply modes, rollback, any injected fault) and hence holds in every reachable state (fm_inv_step, fm_inv_reachable, fm_custody_reachable, fm_inv_init). 'HENCE EVERY POSITION CAN BE WITHDRAWN IN FULL AND EVERY FARM'S REMAINDER REFUNDED AT ANY TIME' as "
+                "liveness theorems: in every state satisfying the invariant an unlocked closed position's withdrawal IS accepted and pays the recorded amount (C08Sys.withdraw_after_unlock), and the farm owner's "
+                "(or contract owner's) CloseFarm IS accepted (C02Live.close_farm_live); exact effect of an accepted Claim (C08Tx.claim_tx_effect)",
         "assumptions": ["the lift through the runtime to whole transactions is proved for the runtime/bank MODEL (Model/System.lean, Model/World.lean: cw-multi-test "
                         "semantics, trusted, exercised by the history and fault streams) and for transactions signed by accounts (never by a contract address); "
                         "on the implementation it is validated by the custody monitor on every step",
